@@ -278,9 +278,15 @@ where
                 group_id: y.group_id,
                 auth_message_id: operation.id(),
                 direct_messages: vec![],
-                space_dependencies,
+                space_dependencies: space_dependencies.clone(),
             };
             let message = manager.identity.forge(args).await?;
+
+            // Make our own orderer aware of the pointer we just published, otherwise we would not
+            // recognise it as already processed when it comes back to us.
+            y.encryption_y
+                .orderer
+                .add_dependency(message.hash(), &space_dependencies);
 
             space_dependencies = vec![message.hash()];
             messages.push(message);
